@@ -470,6 +470,9 @@ func PendingPod(t *rapid.T, idx int, k Knobs) *corev1.Pod {
 
 func timeSec(n int) time.Duration { return time.Duration(n) * time.Second }
 
+// Seconds converts a second count to a duration.
+func Seconds(n int) time.Duration { return timeSec(n) }
+
 // InterPod adds one inter-pod constraint to the pod.
 func InterPod(t *rapid.T, p *corev1.Pod, l string, k Knobs) {
 	sel := &metav1.LabelSelector{MatchLabels: map[string]string{"app": pick(t, apps, l+"_ipApp")}}
